@@ -7,7 +7,8 @@ stable = set(json.load(open("/root/.vp/BASELINE.json"))["stable_pass"])
 fd, xmlp = tempfile.mkstemp(suffix=".xml", dir="/var/tmp"); os.close(fd)
 env = dict(os.environ, PYTHONPATH=os.path.join(tree, "src"))
 r = subprocess.run(["/venv/bin/python", "-m", "pytest", "-q", "-p", "no:cacheprovider", "--timeout=900",
-                    "--continue-on-collection-errors", "--junitxml=" + xmlp] + paths, cwd=tree, env=env,
+                    "--continue-on-collection-errors", "--junitxml=" + xmlp]
+                   + (["-n", os.environ.get("REGRESS_N", "4")] if os.environ.get("REGRESS_N", "4") != "0" else []) + paths, cwd=tree, env=env,
                    capture_output=True, text=True)
 print(r.stdout.strip().splitlines()[-1] if r.stdout.strip() else r.stderr[-500:])
 bad = []; n = 0
@@ -18,6 +19,20 @@ for tc in ET.parse(xmlp).getroot().iter("testcase"):
         if name in stable:
             bad.append(name)
 os.unlink(xmlp)
+if bad and len(bad) <= 12:
+    # process/timing tests flake under load: re-run each suspect alone once
+    still = []
+    for b in bad:
+        cls, name = b.split("::")
+        mod, _, klass = cls.rpartition(".")
+        node = mod.replace(".", "/") + ".py::" + klass + "::" + name
+        r2 = subprocess.run(["/venv/bin/python", "-m", "pytest", "-q", "-p", "no:cacheprovider", "--timeout=900", node],
+                            cwd=tree, env=env, capture_output=True, text=True)
+        if r2.returncode != 0:
+            still.append(b)
+        else:
+            print("  (flaky, passed when re-run alone)", b)
+    bad = still
 print(f"{n} testcases; stable-pass tests now failing: {len(bad)}")
 for b in bad: print("  REGRESSION", b)
 sys.exit(1 if bad else 0)
